@@ -6,6 +6,9 @@
                                             with it and passes without it (records into meta.json)
   seeds.py detect <seed id>... [--props C01,C05] [--tier quick]
                                             apply to /repo, run the checks, undo; record which catch it
+  seeds.py harvest-benign <worktree dir> <Cxx> / confirm-benign <id>... / quiet <id>...
+                                            the same for harmless changes (benign/): the checks of every
+                                            property exercising the touched files must stay quiet
 """
 import json
 import os
@@ -92,6 +95,109 @@ def detect(sid, props, tier):
     json.dump(meta, open(mp, 'w'), indent=1)
 
 
+BENIGN = os.path.join(VERIF, 'benign')
+
+# which properties' checks exercise a file (besides the property the change was written for)
+FILE_PROPS = [
+    ('utility/bounded_', ['C16', 'C17', 'C07', 'C08', 'C05']),
+    ('utility/', ['C17', 'C05', 'C01']),
+    ('base/table', ['C07', 'C08', 'C01', 'C05']),
+    ('table.h', ['C07', 'C08', 'C13']),
+    ('traits/is_fungible', ['C09', 'C14']),
+    ('types/variant', ['C12', 'C01']),
+    ('types/detail/variant', ['C12', 'C01']),
+    ('types/optional', ['C13', 'C01']),
+    ('types/result', ['C13', 'C01']),
+    ('types/handle', ['C15']),
+    ('base/handle', ['C15', 'C01']),
+    ('rpc/', ['C14', 'C18', 'C10']),
+    ('sip_hash', ['C18', 'C14']),
+    ('thread_local', ['C19']),
+    ('endian', ['C20']),
+    ('status.h', ['C13', 'C19']),
+    ('base/', ['C01', 'C03', 'C04', 'C05', 'C06', 'C10', 'C11', 'C02']),
+]
+
+
+def harvest_benign(wt, pid):
+    for k in sorted(x for x in os.listdir(wt) if x.startswith('b') and x[1:].isdigit()):
+        src = os.path.join(wt, k)
+        if not os.path.isdir(src):
+            continue
+        dst = os.path.join(BENIGN, '%s-%s' % (pid, k))
+        os.makedirs(dst, exist_ok=True)
+        for f in os.listdir(src):
+            if f in ('patch.diff', 'demo.cpp', 'demo.sh', 'meta.json') or f.endswith(('.h', '.hpp')):
+                shutil.copy(os.path.join(src, f), os.path.join(dst, f))
+        print('harvested', dst)
+
+
+def confirm_benign(sid):
+    """suite passes with the patch; the author's property program passes with and without it"""
+    d = os.path.join(BENIGN, sid)
+    wt = '/tmp/benignconfirm-' + sid
+    sh('git -C %s worktree remove --force %s' % (REPO, wt))
+    sh('git -C %s worktree add -q %s HEAD' % (REPO, wt))
+    res = {}
+    try:
+        mk = sid.split('-')[1]
+        os.makedirs(os.path.join(wt, mk), exist_ok=True)
+        for f in os.listdir(d):
+            shutil.copy(os.path.join(d, f), os.path.join(wt, mk, f))
+        rc, out = sh('sh %s/demo.sh' % mk, cwd=wt, timeout=900)
+        res['demo_without_patch'] = 'pass' if rc == 0 and 'FAIL' not in out else 'FAIL(rc=%d)' % rc
+        rc, out = sh('git apply %s/patch.diff' % mk, cwd=wt)
+        res['patch_applies'] = rc == 0
+        rc, out = sh('make -j8 2>&1 | tail -3 && out/test 2>&1 | tail -3', cwd=wt, timeout=1800)
+        res['tests_with_patch'] = 'pass' if ('PASSED  ] 315 tests' in out and 'FAILED' not in out) else 'FAIL: ' + out[-300:]
+        rc, out = sh('sh %s/demo.sh' % mk, cwd=wt, timeout=900)
+        res['demo_with_patch'] = 'pass' if rc == 0 and 'FAIL' not in out else 'FAIL(rc=%d)' % rc
+        res['confirmed'] = (res['demo_without_patch'] == 'pass' and res['patch_applies'] and res['tests_with_patch'] == 'pass'
+                            and res['demo_with_patch'] == 'pass')
+    finally:
+        sh('git -C %s worktree remove --force %s' % (REPO, wt))
+    mp = os.path.join(d, 'meta.json')
+    meta = json.load(open(mp)) if os.path.exists(mp) else {}
+    meta['confirmation'] = res
+    json.dump(meta, open(mp, 'w'), indent=1)
+    print(sid, json.dumps(res))
+
+
+def quiet(sid, tier):
+    """a harmless change: the checks of every property that exercises the touched files must stay quiet"""
+    d = os.path.join(BENIGN, sid)
+    rc, out = sh('git -C %s status --porcelain' % REPO)
+    if out.strip():
+        print('refusing: /repo working tree is not clean'); return
+    patch = open(os.path.join(d, 'patch.diff')).read()
+    files = [l[6:] for l in patch.split('\n') if l.startswith('+++ b/')]
+    props = [sid.split('-')[0]]
+    for f in files:
+        for (frag, ps) in FILE_PROPS:
+            if frag in f:
+                for p in ps:
+                    if p not in props:
+                        props.append(p)
+                break
+    rc, out = sh('git -C %s apply %s/patch.diff' % (REPO, d))
+    if rc != 0:
+        print('patch does not apply', out); return
+    results = {}
+    try:
+        for p in props:
+            rc, out = sh('python3 %s/check.py %s --tier %s' % (HERE, p, tier), cwd=VERIF, timeout=7200)
+            vio = [l for l in out.split('\n') if l.startswith('VIOLATION')]
+            results[p] = dict(exit=rc, violation=vio[0] if vio else None,
+                              first=[l.strip()[:600] for l in out.split('\n') if l.strip().startswith('- ')][:3])
+            print(sid, p, 'exit', rc, (vio[0][:160] if vio else 'quiet'))
+    finally:
+        sh('git -C %s checkout -- .' % REPO)
+    mp = os.path.join(d, 'meta.json')
+    meta = json.load(open(mp)) if os.path.exists(mp) else {}
+    meta['checks_run'] = results
+    json.dump(meta, open(mp, 'w'), indent=1)
+
+
 def main():
     a = sys.argv[1:]
     if a[0] == 'harvest':
@@ -99,6 +205,14 @@ def main():
     elif a[0] == 'confirm':
         for sid in a[1:]:
             confirm(sid)
+    elif a[0] == 'harvest-benign':
+        harvest_benign(a[1], a[2])
+    elif a[0] == 'confirm-benign':
+        for sid in a[1:]:
+            confirm_benign(sid)
+    elif a[0] == 'quiet':
+        for sid in a[1:]:
+            quiet(sid, 'quick')
     elif a[0] == 'detect':
         props = None; tier = 'quick'; ids = []
         i = 1
